@@ -870,3 +870,225 @@ Proof.
   - reflexivity.
   - cbn in Hc. destruct flex; vm_compute in Hp; inversion Hp; subst; discriminate.
 Qed.
+
+(* ================================================================== outstanding correlation ids are distinct *)
+From Coq Require Import Sorted.
+Definition corrs (q : list entry) : list Z :=
+  flat_map (fun e => match e_corr e with Some c => [c] | None => [] end) q.
+
+Definition suffix {A} (l' l : list A) : Prop := exists p, l = p ++ l'.
+
+Lemma suffix_refl {A} (l : list A) : suffix l l.
+Proof. exists []. reflexivity. Qed.
+
+Lemma suffix_nil {A} (l : list A) : suffix [] l.
+Proof. exists l. rewrite app_nil_r. reflexivity. Qed.
+
+Lemma suffix_trans {A} (a b c : list A) : suffix a b -> suffix b c -> suffix a c.
+Proof. intros [p ->] [q ->]. exists (q ++ p). rewrite app_assoc. reflexivity. Qed.
+
+Lemma corrs_tail e tl : suffix (corrs tl) (corrs (e :: tl)).
+Proof. unfold corrs. cbn [flat_map]. eexists. reflexivity. Qed.
+
+Lemma corrs_map_done (g : entry -> entry) q :
+  (forall e, e_corr (g e) = e_corr e) -> corrs (map g q) = corrs q.
+Proof.
+  intros Hg. unfold corrs. induction q as [|e q IH]; [reflexivity|].
+  cbn [map flat_map]. rewrite Hg, IH. reflexivity.
+Qed.
+
+Section CorrDistinct.
+  Variable decodes : Z -> bytes -> bool.
+
+  Lemma close_corrs c s : corrs (reqs (close c s)) = [] \/ close c s = s.
+  Proof. unfold close. destruct (open s); [left; reflexivity|right; reflexivity]. Qed.
+
+  Lemma handle_corrs s f :
+    suffix (corrs (reqs (handle decodes s f))) (corrs (reqs s)) /\ corr (handle decodes s f) = corr s.
+  Proof.
+    destruct s as [q rb op cr ns lg]. unfold handle, close, pop. cbn [reqs rbuf open corr nsent log].
+    destruct q as [|e tl].
+    - destruct op; split; try reflexivity; apply suffix_nil.
+    - destruct (e_corr e) as [c|] eqn:Ec.
+      + destruct (parse_header (e_flex e) f) as [[rc body]|].
+        * destruct (negb (e_quirk e && negb (c =? 0) && (rc =? 0)) && negb (rc =? c)).
+          { destruct op; cbn; split; try reflexivity; [apply suffix_nil|].
+            unfold corrs. cbn [flat_map e_corr set_done]. rewrite Ec. apply suffix_refl. }
+          destruct (e_done e); [split; [apply corrs_tail|reflexivity]|].
+          destruct (decodes (e_api e) body); [split; [apply corrs_tail|reflexivity]|].
+          destruct op; cbn; split; try reflexivity; [apply suffix_nil|apply suffix_refl].
+        * destruct op; cbn; split; try reflexivity; [apply suffix_nil|apply suffix_refl].
+      + destruct (e_done e); split; try reflexivity; apply corrs_tail.
+  Qed.
+
+  Lemma drain_corrs : forall n s,
+    suffix (corrs (reqs (drain decodes n s))) (corrs (reqs s)) /\ corr (drain decodes n s) = corr s.
+  Proof.
+    induction n as [|n IH]; intros s; [split; [apply suffix_refl|reflexivity]|].
+    cbn [drain]. destruct (open s) eqn:Ho; [|split; [apply suffix_refl|reflexivity]].
+    destruct (extract (rbuf s)) as [| |f rest]; [split; [apply suffix_refl|reflexivity]| |].
+    - unfold close. rewrite Ho. cbn. split; [apply suffix_nil|reflexivity].
+    - destruct (IH (handle decodes (mkS (reqs s) rest true (corr s) (nsent s) (log s)) f)) as [H1 H2].
+      destruct (handle_corrs (mkS (reqs s) rest true (corr s) (nsent s) (log s)) f) as [H3 H4].
+      cbn [reqs corr] in H3, H4. split; [eapply suffix_trans; eassumption|congruence].
+  Qed.
+
+  Lemma finish_corrs id w s :
+    corrs (reqs (finish_waiter id w s)) = corrs (reqs s) /\ corr (finish_waiter id w s) = corr s.
+  Proof.
+    unfold finish_waiter. destruct (find _ (reqs s)); [|split; reflexivity].
+    cbn [reqs corr]. split; [|reflexivity]. apply corrs_map_done.
+    intros e'. destruct (Nat.eqb (e_id e') id); reflexivity.
+  Qed.
+
+  Lemma close_suffix c s : suffix (corrs (reqs (close c s))) (corrs (reqs s)) /\ corr (close c s) = corr s.
+  Proof.
+    unfold close. destruct (open s); cbn; split; try reflexivity; [apply suffix_nil|apply suffix_refl].
+  Qed.
+
+  (* events other than an effective Send / SendNoResp: the outstanding ids shrink to a suffix *)
+  Lemma step_corrs_other s ev :
+    (forall a f q, ev <> Send a f q) -> ev <> SendNoResp ->
+    suffix (corrs (reqs (step decodes s ev))) (corrs (reqs s)) /\ corr (step decodes s ev) = corr s.
+  Proof.
+    intros Hs Hn. destruct ev as [api flex quirk| | |c|id vc|id| | |]; cbn [step];
+      try (apply close_suffix).
+    - exfalso. exact (Hs _ _ _ eq_refl).
+    - exfalso. exact (Hn eq_refl).
+    - destruct (open s); cbn [reqs corr]; split; try reflexivity; [|apply suffix_refl].
+      unfold corrs. rewrite flat_map_app. cbn. rewrite app_nil_r. apply suffix_refl.
+    - unfold feed. destruct (drain_corrs (S (length (rbuf (append c s)))) (append c s)) as [H1 H2].
+      assert (Ha : reqs (append c s) = reqs s /\ corr (append c s) = corr s).
+      { unfold append. destruct (open s); split; reflexivity. }
+      destruct Ha as [Ha1 Ha2]. rewrite Ha1 in H1. rewrite Ha2 in H2. split; assumption.
+    - destruct (find _ (reqs s)); [|split; [apply suffix_refl|reflexivity]].
+      destruct (finish_corrs id TimedOut s) as [H1 H2].
+      destruct vc.
+      + destruct (close_suffix CNone (finish_waiter id TimedOut s)) as [H3 H4].
+        rewrite H1 in H3. split; [exact H3|congruence].
+      + rewrite H1. split; [apply suffix_refl|exact H2].
+    - destruct (finish_corrs id Cancelled s) as [H1 H2]. rewrite H1. split; [apply suffix_refl|exact H2].
+  Qed.
+
+  (* ghost ages: the i-th outstanding id was handed out a_i calls of _next_correlation_id ago *)
+  Definition aged (q : list Z) (c k : Z) : Prop :=
+    exists ages : list Z,
+      Forall2 (fun ci a => ci = (c - a) mod 2147483648) q ages /\
+      StronglySorted Z.gt ages /\ Forall (fun a => 0 <= a < k) ages.
+
+  Lemma aged_suffix q' q c k : suffix q' q -> aged q c k -> aged q' c k.
+  Proof.
+    intros [p ->] (ages & H2 & Hs & Hb).
+    apply Forall2_app_inv_l in H2. destruct H2 as (a1 & a2 & Hp & Hq & ->).
+    exists a2. split; [exact Hq|]. split.
+    - clear - Hs. induction a1 as [|x a1 IH]; [exact Hs|]. apply IH. inversion Hs; assumption.
+    - apply Forall_app in Hb. apply Hb.
+  Qed.
+
+  Lemma aged_mono q c k k' : k <= k' -> aged q c k -> aged q c k'.
+  Proof.
+    intros Hk (ages & H2 & Hs & Hb). exists ages. repeat split; try assumption.
+    eapply Forall_impl; [|exact Hb]. cbn. intros a Ha. lia.
+  Qed.
+
+  Lemma aged_incr q c k :
+    0 <= c < 2147483648 -> aged q c k -> aged q (NextCorr.post c) (k + 1).
+  Proof.
+    intros Hc (ages & H2 & Hs & Hb). exists (map (fun a => a + 1) ages). split; [|split].
+    - clear Hs Hb. induction H2 as [|ci a q ages Hh _ IH]; [constructor|].
+      cbn [map]. constructor; [|exact IH]. subst ci. rewrite nextcorr_post.
+      rewrite Zminus_mod_idemp_l. f_equal. lia.
+    - clear H2 Hb. induction Hs as [|a ages _ IH Hall]; [constructor|].
+      cbn [map]. constructor; [exact IH|]. rewrite Forall_map. eapply Forall_impl; [|exact Hall].
+      cbn. intros b Hb. lia.
+    - rewrite Forall_map. eapply Forall_impl; [|exact Hb]. cbn. intros a Ha. lia.
+  Qed.
+
+  Lemma sorted_snoc l x : StronglySorted Z.gt l -> Forall (fun a => a > x) l -> StronglySorted Z.gt (l ++ [x]).
+  Proof.
+    induction 1 as [|a l Hs IH Hall]; intros Hx; [repeat constructor|].
+    inversion Hx; subst. cbn. constructor; [apply IH; assumption|].
+    apply Forall_app. split; [exact Hall|]. constructor; [assumption|constructor].
+  Qed.
+
+  Lemma aged_send q c k :
+    0 <= c < 2147483648 -> 0 <= k -> aged q c k ->
+    aged (q ++ [NextCorr.post c]) (NextCorr.post c) (k + 1).
+  Proof.
+    intros Hc Hk (ages & H2 & Hs & Hb).
+    exists (map (fun a => a + 1) ages ++ [0]). split; [|split].
+    - apply Forall2_app.
+      + clear Hs Hb. induction H2 as [|ci a q ages Hh _ IH]; [constructor|].
+        cbn [map]. constructor; [|exact IH]. subst ci. rewrite nextcorr_post.
+        rewrite Zminus_mod_idemp_l. f_equal. lia.
+      + constructor; [|constructor]. rewrite Z.sub_0_r. pose proof (nextcorr_range c).
+        rewrite Z.mod_small by lia. reflexivity.
+    - apply sorted_snoc.
+      + clear H2 Hb. induction Hs as [|a ages _ IH Hall]; [constructor|].
+        cbn [map]. constructor; [exact IH|]. rewrite Forall_map. eapply Forall_impl; [|exact Hall].
+        cbn. intros b Hb. lia.
+      + rewrite Forall_map. eapply Forall_impl; [|exact Hb]. cbn. intros a Ha. lia.
+    - apply Forall_app. split.
+      + rewrite Forall_map. eapply Forall_impl; [|exact Hb]. cbn. intros a Ha. lia.
+      + constructor; [lia|constructor].
+  Qed.
+
+  Lemma aged_step s ev k :
+    0 <= corr s < 2147483648 -> 0 <= k ->
+    aged (corrs (reqs s)) (corr s) k ->
+    aged (corrs (reqs (step decodes s ev))) (corr (step decodes s ev)) (k + 1).
+  Proof.
+    intros Hc Hk Ha.
+    destruct ev as [api flex quirk| | |c|id vc|id| | |].
+    1:{ cbn [step]. destruct (open s); cbn [reqs corr].
+        - unfold corrs. rewrite flat_map_app. cbn [flat_map e_corr]. rewrite app_nil_r.
+          apply aged_send; assumption.
+        - eapply aged_mono; [|exact Ha]. lia. }
+    1:{ cbn [step]. destruct (open s); cbn [reqs corr].
+        - apply aged_incr; assumption.
+        - eapply aged_mono; [|exact Ha]. lia. }
+    all: match goal with |- aged (corrs (reqs (step decodes _ ?e))) _ _ =>
+           destruct (step_corrs_other s e) as [H1 H2]; [intros; discriminate|discriminate|] end;
+         rewrite H2; (eapply aged_mono; [|eapply aged_suffix; eassumption]); lia.
+  Qed.
+
+  Lemma aged_run evs : forall s k,
+    0 <= corr s < 2147483648 -> 0 <= k ->
+    aged (corrs (reqs s)) (corr s) k ->
+    aged (corrs (reqs (run decodes s evs))) (corr (run decodes s evs)) (k + Z.of_nat (length evs)).
+  Proof.
+    induction evs as [|ev evs IH]; intros s k Hc Hk Ha.
+    - cbn. rewrite Z.add_0_r. exact Ha.
+    - cbn [run fold_left length]. rewrite Nat2Z.inj_succ.
+      replace (k + Z.succ (Z.of_nat (length evs))) with ((k + 1) + Z.of_nat (length evs)) by lia.
+      apply IH; [apply corr_range_step; exact Hc|lia|apply aged_step; assumption].
+  Qed.
+
+  Lemma aged_nodup q c k : k <= 2147483648 -> aged q c k -> NoDup q.
+  Proof.
+    intros Hk (ages & H2 & Hs & Hb). revert Hs Hb.
+    induction H2 as [|ci a q ages Hh H2 IH]; intros Hs Hb; [constructor|].
+    inversion Hs as [|? ? Hs' Hgt]; subst. inversion Hb as [|? ? Ha Hb']; subst.
+    constructor; [|apply IH; assumption].
+    intros Hin.
+    (* some later id equals ci: its age b satisfies 0 <= b < a < k <= 2^31 *)
+    assert (Hex : exists b, In b ages /\ (c - a) mod 2147483648 = (c - b) mod 2147483648).
+    { clear - H2 Hin. induction H2 as [|cj b q ages Hj _ IH]; [contradiction|].
+      destruct Hin as [<-|Hin].
+      - exists b. split; [left; reflexivity|exact Hj].
+      - destruct (IH Hin) as (b' & Hb' & E). exists b'. split; [right; exact Hb'|exact E]. }
+    destruct Hex as (b & Hbin & E).
+    rewrite Forall_forall in Hgt, Hb'. specialize (Hgt b Hbin). specialize (Hb' b Hbin).
+    assert (Hm : (a - b) mod 2147483648 = 0).
+    { replace (a - b) with ((c - b) - (c - a)) by lia. rewrite Zminus_mod, E, Z.sub_diag. reflexivity. }
+    rewrite Z.mod_small in Hm by lia. lia.
+  Qed.
+
+  Theorem outstanding_distinct c0 evs :
+    0 <= c0 < 2147483648 -> Z.of_nat (length evs) <= 2147483648 ->
+    NoDup (corrs (reqs (run decodes (init c0) evs))).
+  Proof.
+    intros Hc Hl. apply (aged_nodup _ (corr (run decodes (init c0) evs)) (0 + Z.of_nat (length evs))); [lia|].
+    apply aged_run; [exact Hc|lia|]. exists []. repeat constructor.
+  Qed.
+End CorrDistinct.
